@@ -435,6 +435,72 @@ func (i *instantiator) doExpr(context *instance, expr *Expr) *Expr {
 	return &ret
 }
 
+// updateArgRefs rewrites the ArgRefs of all commands under "scope" (a rule, or an element of a
+// list, which has its own numbering of positions) to refer to instantiated nonterminals.
+func (i *instantiator) updateArgRefs(scope *Expr) {
+	if scope.Kind == Choice {
+		// Every alternative numbers its positions from one.
+		for _, sub := range scope.Sub {
+			i.updateArgRefs(sub)
+		}
+		return
+	}
+	terms := len(i.m.Terminals)
+	refs := make(map[int]int) // position -> instantiated symbol
+	var commands []*Expr
+	var visit func(e *Expr, top bool)
+	visit = func(e *Expr, top bool) {
+		switch e.Kind {
+		case Reference:
+			if e.Pos > 0 && e.Symbol >= terms {
+				refs[e.Pos] = e.Symbol
+			}
+		case Command:
+			if e.CmdArgs != nil && e.CmdArgs.ArgRefs != nil {
+				commands = append(commands, e)
+			}
+		case List:
+			if !top {
+				for _, sub := range e.Sub {
+					i.updateArgRefs(sub)
+				}
+				return
+			}
+		}
+		for _, sub := range e.Sub {
+			visit(sub, false)
+		}
+	}
+	visit(scope, true)
+
+	for _, cmd := range commands {
+		// Note: CmdArgs are shared between the instances of a template.
+		args := *cmd.CmdArgs
+		args.ArgRefs = make(map[int]ArgRef, len(cmd.CmdArgs.ArgRefs))
+		for pos, ref := range cmd.CmdArgs.ArgRefs {
+			if nt := ref.Symbol - terms; nt >= 0 {
+				sym, ok := refs[pos]
+				if !ok {
+					// The reference did not make it into this instance. Any instance of the
+					// nonterminal will do (they all share one type).
+					for _, other := range i.instances {
+						if other.nonterm == nt {
+							sym, ok = terms+other.index, true
+							break
+						}
+					}
+				}
+				if !ok {
+					continue
+				}
+				ref.Symbol = sym
+			}
+			args.ArgRefs[pos] = ref
+		}
+		cmd.CmdArgs = &args
+	}
+}
+
 func (i *instantiator) suffix(args []boundParam) string {
 	if len(args) == 0 {
 		return ""
@@ -489,6 +555,12 @@ func Instantiate(m *Model) error {
 		curr := inst.instances[i]
 		curr.val = inst.doExpr(curr, m.Nonterms[curr.nonterm].Value)
 		curr.suffix = inst.suffix(curr.args)
+	}
+
+	// Semantic actions refer to the nonterminals of their rule by symbol. Point them to the
+	// instances the rule now refers to.
+	for _, instance := range inst.instances {
+		inst.updateArgRefs(instance.val)
 	}
 
 	// Sort the instances and move them over into the grammar.
